@@ -330,7 +330,19 @@ func ruleLatchRelease(c *Ctx, rule string) {
 	c.check(rule, "NewStream:latch-armed-once", okAdd, "ready.Add(1) exactly once, before the read loop starts", p.pos(ns.Pos()))
 	rl := p.MustFn("client.clientStream.readLoop")
 	// onReady: the closure that calls ready.Done
-	onReady := p.closureWith(rl, "onReady closure (calls ready.Done)", func(f *ssa.Function) bool { return len(p.callsTo(f, "sync.WaitGroup).Done", false)) > 0 })
+	// the function that releases the latch (a closure of the read loop, or a method it was moved into)
+	var onReady *ssa.Function
+	for _, f := range p.Funcs {
+		if strings.HasPrefix(p.fnKey(rootFn(f)), "client.clientStream.") && len(p.callsTo(f, "sync.WaitGroup).Done", false)) > 0 {
+			if onReady != nil {
+				panic(UnresolvedError{"exactly one function releasing the ready latch"})
+			}
+			onReady = f
+		}
+	}
+	if onReady == nil {
+		panic(UnresolvedError{"function releasing the ready latch (calls ready.Done)"})
+	}
 	isRelease := func(i ssa.Instruction) bool {
 		cl, ok := i.(*ssa.Call)
 		if !ok || cl.Call.IsInvoke() {
